@@ -415,7 +415,7 @@ def scripted(ctx, objdir):
     rng = ctx.rng
     impl = Impl(ctx, objdir)
     cases = [dict(w) for w in WITNESSES]
-    n = ctx.n(200, 1300)
+    n = ctx.n(200, 1500)
     for i in range(n):
         cases.append(gen_case(rng))
     for k in cases:
@@ -502,7 +502,9 @@ def run(ctx):
     common_meta(ctx)
     objdir = setup(ctx)
     cases = scripted(ctx, objdir)
+    ctx.log("scripted: %d event streams run through the real uftrace_python.so" % len(cases))
     res = evaluate(ctx, cases)
+    ctx.log("scripted: evaluated in Coq")
     for k in cases:
         ev = flatten(k["funcs"], k["forest"], []) + list(k["raw"])
         ctx.case(key=(k["env"], k["lib"], k["pymain"], json.dumps(k["funcs"], sort_keys=True), tuple(ev)),
